@@ -90,6 +90,14 @@ def mutants(tg, parent, rng, tags=('C01', 'C02', 'C05', 'struct')):
         v0 = a0[1][0]
         add('ref-twice-in-tx', 'C01', [spend([a0, a0], outs=[(v0, keys.pks[1])])])
         add('ref-in-two-txs', 'C01', [spend([a0]), spend([a0], outs=[(v0, keys.pks[2])])])
+        if len(avail) >= 2:
+            # the same output spent by two transactions that are NOT adjacent in the block
+            add('ref-in-two-nonadjacent-txs', 'C01', [spend([a0]), spend([avail[1]]), spend([a0], outs=[(v0, keys.pks[2])])])
+            add('ref-in-two-nonadjacent-txs', 'C02', [spend([a0]), spend([avail[1]]), spend([a0], outs=[(v0, keys.pks[2])])])
+        if len(avail) >= 3:
+            add('ref-in-first-and-fourth-tx', 'C01', [spend([a0]), spend([avail[1]]), spend([avail[2]]),
+                                                       spend([avail[1], a0], outs=[(v0 + avail[1][1][0], keys.pks[3])])][:3] +
+                [spend([a0], outs=[(v0, keys.pks[4])])])
         wrong = [pk for pk in keys.pks if pk != a0[1][1]][0]
         add('signed-by-other-key', 'C01', [spend([a0], sign_with={a0[0]: wrong})])
         good = spend([a0])
@@ -144,6 +152,14 @@ def mutants(tg, parent, rng, tags=('C01', 'C02', 'C05', 'struct')):
 
     # ---- C02: value rules
     add('reward-plus-one', 'C02', [], reward=sub + 1)
+    # reward transaction with several outputs: the SUM is what counts
+    def cb_multi(vals):
+        return mk_tx([(b'\x00' * 32, 0, ('cb', height, b'm'))], [(v, miner) for v in vals])
+    if sub >= 2:
+        add('control-reward-two-outputs-exact', 'C02', [], cb=cb_multi([sub - 1, 1]), expect='accept')
+        add('reward-two-outputs-sum-plus-one', 'C02', [], cb=cb_multi([sub, 1]))
+        add('reward-three-outputs-last-small', 'C02', [], cb=cb_multi([sub, sub, 1]))
+        add('reward-two-outputs-first-small', 'C02', [], cb=cb_multi([1, sub]))
     if avail:
         a0 = avail[0]
         v0 = a0[1][0]
@@ -190,6 +206,27 @@ def mutants(tg, parent, rng, tags=('C01', 'C02', 'C05', 'struct')):
             if a is not None and ts > a.view.time:
                 tgt = min(ipt * (ts - a.view.time) // env.span, 2 ** 256 - 1).to_bytes(32, 'big')
                 add(lab, 'C05', [], ov={'target': tgt})
+    # evidence whose chain sample is taken from the blocks of a SIBLING branch (same heights, other blocks)
+    mychain_ids = set(n.id for n in parent.chain())
+    for tip in tg.nodes:
+        if tip.id in mychain_ids or tip.height < 2:
+            continue
+        mixed = {v.height: v for v in [x.view for x in parent.chain()]}
+        differs = False
+        for x in tip.chain():
+            if x.height in mixed and mixed[x.height].id != x.id:
+                mixed[x.height] = x.view
+                differs = True
+        if differs:
+            try:
+                cbx = coinbase(height, sub, miner, b'm')
+                good = assemble(env, parent, [cbx], ts, mine=False)
+                alt = assemble(env, parent, [cbx], ts, overrides={'sample_chain': mixed}, mine=False)
+                if bytes(good.header.pow_evidence.serialize()) != bytes(alt.header.pow_evidence.serialize()):
+                    add('evidence-sampled-from-sibling-branch', 'C05', [], ov={'sample_chain': mixed})
+                    break
+            except Exception:
+                pass
     add('time-equal-parent', 'C05', [], ts_=parent.view.time)
     if parent.view.time > 0:
         add('time-before-parent', 'C05', [], ts_=parent.view.time - 1)
